@@ -24,6 +24,7 @@ import (
 	"math/rand"
 	"runtime"
 
+	"github.com/canopy-network/canopy/fsm"
 	"github.com/canopy-network/canopy/lib"
 	"github.com/canopy-network/canopy/lib/crypto"
 	"verifharness/drv"
@@ -52,6 +53,7 @@ func Run(o *drv.Out) {
 	}
 	corpusOversize(o) // corpus first
 	corpusFullBlock(o)
+	corpusLastCertVersion(o)
 	for ci := 0; ci < nCases; ci++ {
 		runCase(o, ci, nHeights, bigSends)
 	}
@@ -204,6 +206,69 @@ func corpusFullBlock(o *drv.Out) {
 	}
 }
 
+// corpusLastCertVersion: many valid versions of one commit certificate exist (any +2/3 signer set).
+// Block h's header fixes the version of the height h-1 certificate that BeginBlock(h) consumes
+// (non-signer counters, reward reduction, window-end slashing); a node that stored ANOTHER version
+// when it committed h-1 must still compute the same block h on every path, the sync path included.
+// Four equal validators, MaxNonSign = 1 so that the window end at height 5 slashes by the embedded
+// versions: the proposer always commits with signers {0,1,2}, the syncing node with {1,2,3}, the
+// replaying node with all four, the validating replica with {0,2,3}.
+func corpusLastCertVersion(o *drv.Out) {
+	o.Case("corpus-last-certificate-version")
+	rng := rand.New(rand.NewSource(49))
+	net := node.NewNetwork(9, 4, nil, 12, node.Options{MutateGenesis: func(g *fsm.GenesisState) { g.Params.Validator.MaxNonSign = 1 }})
+	defer net.Close()
+	c := execdrv.NewChain(o, net, rng, []int{16, 2, 5})
+	P, V, R, S := c.NewNode("P", 0), c.NewNode("V", 1), c.NewNode("R", -1), c.NewNode("S", -1)
+	for hi := 0; hi < 6; hi++ {
+		h := P.Height()
+		pre := P.StateDigest()
+		p, ok := c.Propose(P, c.Mix.Mix(node.MixOpts{Height: h, Sends: 3}), "produce")
+		if !ok {
+			o.Fail("C03:proposer-failed", "ProduceProposal failed", map[string]any{"case": o.CurCase()})
+			return
+		}
+		st := &step{h: h, hi: hi, pre: pre, prevCert: c.LastCert[P]}
+		pP := c.Version(p, c.Quorum(p.VS, []int{3, 2, 1}))
+		c.Hold = true
+		okP := c.Validate(P, pP)
+		resP := ""
+		if okP {
+			resP = c.Commit(P, pP, false)
+		}
+		st.p, st.post = pP, P.StateDigest()
+		o.Op(fmt.Sprintf("def %d %s %s %s %s", h, pre, p.ID, st.post, p.Obs), "def")
+		c.Release()
+		st.want = fmt.Sprintf("ok state=%s obs=%s", st.post, p.Obs)
+		check(c, st, "propose+validate+commit-cached", resP)
+		if !okP || resP != st.want {
+			return
+		}
+		storedS := c.LastCert[S]
+		if !c.Validate(V, p) {
+			o.Fail("C03:path-divergence:propose-validate:last-certificate-version", fmt.Sprintf("height %d: a replica that stored another version of the last certificate rejects the honest proposal", h), replayInfo(o, c, h, p, "V"))
+			return
+		}
+		check(c, st, "validate+commit-cached", c.Commit(V, c.Version(p, c.Quorum(p.VS, []int{1, 0, 2})), false))
+		check(c, st, "commit-replay", c.Commit(R, p, false))
+		gotS := c.Commit(S, c.Version(p, c.Quorum(p.VS, []int{0, 1, 2})), true)
+		o.Count("compared")
+		if gotS != st.want {
+			o.Fail("C03:sync-path-diverges:last-certificate-version",
+				fmt.Sprintf("height %d: the syncing node stored version %s of the height %d commit certificate, the block's header embeds version %s (same payload, another +2/3 signer set); replaying the block on the sync path gives %q, the proposer's answer is %q", h, storedS, h-1, st.prevCert, gotS, st.want),
+				replayInfo(o, c, h, p, "sync"))
+			return
+		}
+		if storedS != st.prevCert && hi > 0 {
+			o.Count("corpus-last-cert:sync-node-held-another-version")
+		}
+	}
+	if !execdrv.SameDump(P.StateDump(), S.StateDump()) {
+		o.Fail("C03:sync-path-diverges:last-certificate-version", "full state scans of the proposer and the syncing node differ", map[string]any{"case": o.CurCase()})
+	}
+	o.Sample("corpus-last-certificate-version: 6 heights, proposer / replica / replay / sync nodes each store another +2/3 version of every commit certificate; all paths agree")
+}
+
 // step is one height of the chain as the proposer saw it.
 type step struct {
 	h         uint64
@@ -211,6 +276,9 @@ type step struct {
 	pre, post string
 	want      string
 	hi        int
+	// prevCert: the version of the height h-1 commit certificate the proposer stored, i.e. the one
+	// embedded in this block's header as LastQuorumCertificate
+	prevCert string
 }
 
 func runCase(o *drv.Out, ci, nHeights int, bigSends []int) {
@@ -272,6 +340,9 @@ func runCase(o *drv.Out, ci, nHeights int, bigSends []int) {
 			o.Fail("C03:proposer-failed", "ProduceProposal failed on an honest mempool", map[string]any{"case": o.CurCase(), "height": h})
 			return
 		}
+		// every node receives its own valid version of the commit certificate (another +2/3 signer set)
+		p = c.Version(p, c.RandomQuorum(p.VS, 2))
+		st.prevCert = c.LastCert[P]
 		remainder := P.MempoolCount() - p.NTx // valid transactions that did not fit the block
 		if remainder > 0 {
 			o.Count("proposer-oversize-remainder")
@@ -353,6 +424,10 @@ func check(c *execdrv.Chain, st *step, path, got string) {
 // follow executes one height on a follower node through that node's path.
 func follow(c *execdrv.Chain, nd *node.Node, st *step) {
 	p, rng := st.p, c.Rng
+	if p.VS.NumValidators != 0 {
+		p = c.Version(p, c.RandomQuorum(p.VS, 2))
+	}
+	storedPrev := c.LastCert[nd]
 	if nd.Height() != st.h {
 		c.O.Fail("C03:path-divergence:height", fmt.Sprintf("node %s at height %d, expected %d", c.Names[nd], nd.Height(), st.h), replayInfo(c.O, c, st.h, p, c.Names[nd]))
 		return
@@ -366,7 +441,15 @@ func follow(c *execdrv.Chain, nd *node.Node, st *step) {
 	case "R":
 		check(c, st, "commit-replay", c.Commit(nd, p, false))
 	case "S":
-		check(c, st, "sync", c.Commit(nd, p, true))
+		got := c.Commit(nd, p, true)
+		if got != st.want && storedPrev != st.prevCert {
+			c.O.Count("compared")
+			c.O.Fail("C03:sync-path-diverges:last-certificate-version",
+				fmt.Sprintf("height %d: the syncing node stored version %s of the height %d commit certificate, the block's header embeds version %s (same payload, another +2/3 signer set); replaying the block on the sync path gives %q, the proposer's answer is %q", st.h, storedPrev, st.h-1, st.prevCert, got, st.want),
+				replayInfo(c.O, c, st.h, p, "sync"))
+		} else {
+			check(c, st, "sync", got)
+		}
 	case "T":
 		c.Restart(nd)
 		check(c, st, "restart+commit-replay", c.Commit(nd, p, false))
